@@ -455,6 +455,8 @@ SCHED_TASKS = {
     'tc': dict(raptor_id='*',  mode=rp.TASK_FUNCTION, function='f'),
     'td': dict(raptor_id='m2', mode=rp.TASK_EVAL, code='1'),
     'ts': dict(raptor_id='m1', mode=rp.TASK_EXECUTABLE, _seen=True),
+    'ta2': dict(raptor_id='m1', mode=rp.TASK_FUNCTION, function='f'),
+    'ta3': dict(raptor_id='m1', mode=rp.TASK_EXECUTABLE),
     'tl': dict(),                                         # plain local task
     'tw': dict(raptor_id='m1', mode=rp.RAPTOR_WORKER),    # a worker of m1
 }
@@ -541,6 +543,7 @@ def run_forwarding(part, events, verbose=False):
     log        = list()       # (event index, uid, place, detail)
     marks      = {'q': 0, 'p': 0}
     ev_reg     = list()       # registered set while event i was handled
+    must_cancel = set()       # named while waiting in the raptor backlog
     crashed    = None
 
     def collect(i):
@@ -586,6 +589,9 @@ def run_forwarding(part, events, verbose=False):
                      'arg': {'name': ev[1], 'queue': QNAME[ev[1]]}}))
             elif kind == 'cancel':
                 named.update(ev[1])
+                backlog = set(t['uid'] for ts in s._raptor_tasks.values()
+                                       for t in ts)
+                must_cancel.update(u for u in ev[1] if u in backlog)
                 s.control_cb(rpc.CONTROL_PUBSUB, seams.wire(
                     {'cmd': 'cancel_tasks', 'arg': {'uids': list(ev[1])}}))
             ev_reg.append((before, set(registered)))
@@ -644,6 +650,11 @@ def run_forwarding(part, events, verbose=False):
                                                      'no place at all', evs))
             continue
         place = places[0]
+        if uid in must_cancel and place != 'canceled':
+            viol('cancel-missed', 'AgentSchedulingComponent.control_cb',
+                 '%s:%s' % (kind, place),
+                 'task %s waited in the raptor backlog when a cancel request '
+                 'named it, but it is %s' % (uid, place))
         if raptor:
             if place in ('local', 'waitpool'):
                 viol('routing', 'AgentSchedulingComponent._schedule_incoming',
@@ -736,6 +747,65 @@ def forwarding_sequences(quick):
     return seqs
 
 
+def backlog_cancel_sequences(quick):
+    '''
+    cancel requests naming every non-empty subset of three tasks which wait,
+    next to each other, for the same raptor master (plus a `*` task and a
+    task of another master as bystanders)
+    '''
+    bulk  = ['ta', 'ta2', 'ta3']
+    subs  = [list(c) for k in (1, 2, 3)
+                     for c in itertools.combinations(bulk, k)]
+    ctrl  = [('reg', 'm1'), ('unreg', 'm1'), ('pass',)] + \
+            [('cancel', sub) for sub in subs]
+    seqs  = list()
+    depth = 3 if quick else 4
+    for arr in ([bulk], [bulk + ['tc', 'td']], [['ta'], ['ta2', 'ta3']],
+                [['ta', 'tl'], ['ta2', 'ta3']]):
+        for k in range(1, depth + 1):
+            for cs in itertools.product(ctrl, repeat=k):
+                if not any(c[0] == 'cancel' for c in cs):
+                    continue
+                if sum(1 for c in cs if c[0] == 'cancel') > 2:
+                    continue
+                n = len(cs) + len(arr)
+                for pos in itertools.combinations(range(n), len(arr)):
+                    if len(arr) == 2 and k == depth:
+                        continue
+                    seq, ai, ci = list(), 0, 0
+                    for j in range(n):
+                        if j in pos:
+                            seq.append(('arrive', arr[ai])); ai += 1
+                        else:
+                            seq.append(cs[ci]); ci += 1
+                    seqs.append(seq)
+    return seqs
+
+
+def _cancel_job(rng):
+    lo, hi = rng
+    part = report.Part()
+    for seq in _cjobs[lo:hi]:
+        run_forwarding(part, seq)
+    part.cover(evaluations=hi - lo, raptor_backlog_cancel_sequences=hi - lo)
+    return part.dump()
+
+
+_cjobs = None
+
+
+def run_backlog_cancel(ctx):
+    '''C08 / C20: cancel requests against the scheduler's raptor backlog'''
+    global _cjobs
+    _cjobs = backlog_cancel_sequences(ctx.quick)
+    chunk  = max(1, len(_cjobs) // (ctx.workers * 4))
+    jobs   = [(lo, min(lo + chunk, len(_cjobs)))
+              for lo in range(0, len(_cjobs), chunk)]
+    for res in seams.pmap(_cancel_job, jobs, ctx.workers):
+        ctx.merge(res)
+    return len(_cjobs)
+
+
 # ------------------------------------------------------------------------------
 #
 _jobs = None
@@ -809,6 +879,7 @@ def run(ctx):
              for lo in range(0, len(_jobs), chunk)]
     for res in seams.pmap(_job, jobs, ctx.workers):
         ctx.merge(res)
+    run_backlog_cancel(ctx)
     return len(_jobs)
 
 
